@@ -10,7 +10,8 @@ class C01(Spec):
                          "C01.read_latest", "C01.read_latest_from", "C01.iterRange_spec", "C01.iterate_all",
                          "C01.toList_strictly_sorted", "C01.size_is_count", "C01.load_stored", "C01.old_roots_stable",
                          "C01.load_save_partial", "C01.load_save_or_collision", "C01.merkle_binding", "C01.set_keeps_keyMin",
-                         "C01.hashNode_keys_content", "C01.remove_inv", "C01.get_remove")
+                         "C01.hashNode_keys_content", "C01.remove_inv", "C01.get_remove", "C01.depth_lt_loadFuel", "C01.save_total",
+                         "C01.loaded_tree_inv", "C01.get_at_stored_root", "C01.store_reads_latest")
     partial = ("C01.load_save_partial",)
     level_text = ("Lean 4 theorems, for all trees/keys/values/histories, about an executable model of node.go/tree.go: "
                   "set never panics and preserves search-tree order + stored height/size + AVL balance (set_inv, set_total); "
@@ -27,7 +28,8 @@ class C01(Spec):
                   "output byte for byte, including the SHA-256 root hash of every commit (pins rotations/split keys), height, "
                   "size, Get, index, GetByIndex, Has and every range iteration; property predicate evaluated on the "
                   "implementation against an abstract map per root.")
-    level_note = ("load_save_or_collision is the full statement '... or Collision H' for stores without the height prefix (node key = "
+    level_note = ("Review follow-up: the collision disjuncts are LOCATED (CollisionIn H over the strings hashed in the tree and in the explicit list W of nodes saved before; the unlocated disjunct is trivially true for 32-byte outputs). Store-level composition: store_reads_latest - for stores without EnableMavlPrefix and without enableMVCC, any linear history of Store.Set from a new store (hist): every Set answers a root, and Store.Get at the root of batch i in the FINAL store and in the final store after reopen returns the most recent write of batches 1..i for every key, or two of the node encodings hashed on the way (explicit ghost list returned by hist) collide; hypotheses: 32-byte outputs, no all-zero hash (loadTree reads it as the empty state), lengths < 2^64, fewer than 2^31 keys. The invariant SInv (setKV_sinv) discharges PersistedStored / FitsRec / PH / Shape / KeyMin / DBInv / depth < loadFuel (depth_lt_loadFuel) / save total (save_total) for every tree the store builds, so the hypotheses of load_save_or_collision are reachable. NOT covered by a theorem: forks (a Set on an older root; the step lemma setKV_sinv allows any known root, only the fold is linear), stores with the height prefix (load_save_partial keeps Consistent there: the root record can carry other child keys) and MVCC (loaded leaves carry no values: loaded_tree_inv), histories with MemSet/Commit (pending entries are not in SInv), removal. get_at_stored_root: the one-root version with Stored as hypothesis, any later store state. "
+                  "load_save_or_collision is the full statement '... or CollisionIn H (strings hashed in the tree and in the nodes saved before)' — a located collision, the unlocated one being trivially true for 32-byte outputs — for stores without the height prefix (node key = "
                   "hash of content; `Consistent` derived from merkle_binding + KeyMin, which set keeps); with the prefix the same root "
                   "hash can carry other child keys, so there load_save_partial keeps its explicit `Consistent`; the end-to-end chain Store.Set histories -> "
                   "reads at every old root is carried by the differential run and the predicate. Node.remove (Tree.Remove / "
